@@ -36,15 +36,9 @@ def main(tier):
         return run.finish("dataflow + relational table checks", "./check C13 --tier %s" % tier)
     for ev, m in models.items():
         # whitespace
-        fe = F.by_key["%s::%s" % (ev, ev)]
-        ex = T.param_ids(fe)[0][1]
-        te = m.tb.fn_term(fe)
-        uses = [s for s in subterms(te) if s == ("param", ex)]
-        e = M(("seq", ("let", "?s", ("call", "Iterator::collect::<String>", ("call", "str::split_whitespace", ("param", ex)))), ("let", "?p", ("try", ("call", "P.new", ("var", "?s"), "_"))), "..."), te)
-        other = [s for s in subterms(te) if isinstance(s, tuple) and s and s[0] == "var" and e is not None and s[1] == e["?s"]]
-        run.ob(e is not None and len(uses) == 1 and len(other) == 1, "whitespace|%s" % ev,
-               "C13 the parser sees only split_whitespace().collect::<String>() of the input; the original string has no other use", fe.key, T.show(te)[:300],
-               sample={"evaluator": ev, "dataflow": "expr -> split_whitespace -> collect::<String> -> Parser::new (only use)"})
+        okws, why = m.entry_chain()
+        run.ob(okws, "whitespace|%s" % ev, "C13 the parser sees only the whitespace-stripped input (split_whitespace().collect(), or the characters that are not char::is_whitespace); the original string has no other use",
+               "%s::%s" % (ev, ev), why, sample={"evaluator": ev, "dataflow": "expr -> strip whitespace -> Parser::new (only use)"})
         # aliases
         for cls in spec.ALIAS_CLASSES:
             offered = [s for s in cls if s in spec.surfaces_for(ev)]
